@@ -53,6 +53,8 @@ const EMPTY_BOUND: u64 = 700_001;
 
 /// bound drawn by the condition of the planted `while`
 const WHILE_BOUND: u64 = 800_003;
+const REPEAT_BOUND: u64 = 900_007;
+const DIV_BOUND: u64 = 600_011;
 
 struct Plan {
     /// row ids of the two planted rows `(random(RESET_BOUND))` / resetRandom / `(random(RESET_BOUND))`
@@ -70,12 +72,16 @@ struct Plan {
     loop_reset: Option<usize>,
     /// rows that carry `bits(0, random(Z_r))` in front
     zero_probe: Vec<usize>,
+    /// a planted `repeat(3)` over a row of literals and `(ite(1, random(REPEAT_BOUND), 0))`
+    repeat_probe: Option<usize>,
+    /// the first statement is `let dq = ((random(DIV_BOUND)) / 0);`
+    failing_division: bool,
 }
 
 /// Add the probe inputs RP0 (64 bit) and RB0, RB1 (1 bit each) in front of the header; rows
 /// that carry a random probe lose their X / C entries, so that one evaluation is one item.
 fn plant(b: &mut Built, ch: &mut Ch) -> Plan {
-    let mut plan = Plan { reset_pair: None, value_probe: vec![], bits_probe: vec![], virtual_probe: false, empty_loop: false, while_probe: false, loop_reset: None, zero_probe: vec![] };
+    let mut plan = Plan { reset_pair: None, value_probe: vec![], bits_probe: vec![], virtual_probe: false, empty_loop: false, while_probe: false, loop_reset: None, zero_probe: vec![], repeat_probe: None, failing_division: false };
     for (k, (n, bits)) in [("RP0", 64usize), ("RB0", 1), ("RB1", 1)].iter().enumerate() {
         b.sigs.insert(k, Sig { name: n.to_string(), bits: *bits, kind: Kind::In(InVal::Val(0)) });
         b.prog.header.insert(k, n.to_string());
@@ -109,7 +115,10 @@ fn plant(b: &mut Built, ch: &mut Ch) -> Plan {
                         es.insert(0, Entry::Num(0, Radix::Dec));
                     }
                     if vp {
-                        es.insert(0, Entry::Paren(Expr::Random(Box::new(Expr::lit(probe_bound(*id))))));
+                        // (one probe in three sits inside another call: `ite(1, random(B), 0)`)
+                        let r = Expr::Random(Box::new(Expr::lit(probe_bound(*id))));
+                        let r = if ch.chance(1, 3) { Expr::Ite(Box::new(Expr::lit(1)), Box::new(r), Box::new(Expr::lit(0))) } else { r };
+                        es.insert(0, Entry::Paren(r));
                         plan.value_probe.push(*id);
                     } else {
                         es.insert(0, Entry::Num(0, Radix::Dec));
@@ -153,7 +162,31 @@ fn plant(b: &mut Built, ch: &mut Ch) -> Plan {
     // In a third of the cases the program starts with: a row showing random(RESET_BOUND),
     // `resetRandom;`, a second such row. Both are executed unconditionally and the first draw
     // of the run is the first row's, so the second row must show the same value.
+    // In a fifth of the cases a `repeat(3)` over a row of literals whose only expression is
+    // `(ite(1, random(REPEAT_BOUND), 0))` is put at a top-level position: three evaluations,
+    // three draws, whatever the row looks like.
+    if ch.chance(1, 5) {
+        let id = b.prog.row_count();
+        let mut es: Vec<Entry> = vec![
+            Entry::Paren(Expr::Ite(Box::new(Expr::lit(1)), Box::new(Expr::Random(Box::new(Expr::lit(REPEAT_BOUND)))), Box::new(Expr::lit(0)))),
+            Entry::Num(0, Radix::Dec),
+            Entry::Num(0, Radix::Dec),
+        ];
+        for c in cols.iter().skip(3) {
+            es.push(if c.role == ColRole::ExpectedOnly { Entry::X(true) } else { Entry::Num(0, Radix::Dec) });
+        }
+        let at = ch.upto(b.prog.stmts.len() + 1);
+        b.prog.stmts.insert(at, Stmt::Repeat(Expr::lit(3), id, es));
+        plan.repeat_probe = Some(id);
+    }
     let which = ch.upto(6);
+    if which >= 4 && ch.chance(1, 2) {
+        // (where no reset construct is planted:) the first statement is
+        // `let dq = ((random(DIV_BOUND)) / 0);` - it cannot be evaluated, and its dividend is
+        // evaluated all the same: one error item, one draw; the caller goes on
+        b.prog.stmts.insert(0, Stmt::Let("dq".into(), Expr::Group(Box::new(Expr::bin(BinOp::Div, Expr::Group(Box::new(Expr::Random(Box::new(Expr::lit(DIV_BOUND))))), Expr::lit(0))))));
+        plan.failing_division = true;
+    }
     if which == 2 || which == 3 {
         // (or, instead:) the very first statements of the text are `loop(rz, 2)` / `resetRandom;`
         // / a row showing random(RESET_BOUND) / `end loop`: no `random` stands before that
@@ -197,7 +230,7 @@ impl Property for C17 {
         "C17"
     }
     fn rule(&self) -> &'static str {
-        "profile `random`: flow programs with random(e) in row entries, let, bounds, ite conditions and branches, nested in its own argument, in a virtual signal; bounds >= 2 by construction (2, small, (e&7)+2, 2^k up to 2^62); resetRandom at any statement position; seeds {0, 1, u64::MAX, random} forced through the seed hook; planted probes: `(random(B_r))` in a 64-bit input and `bits(2, random(B_r+1))` in two 1-bit inputs with a bound unique to the source row r (half of such rows keep their X/C entries: the g items of one evaluation then all show the one value drawn for it), `bits(0, random(Z_r))` in front of one row in six (no column, still one draw per evaluation), `declare VR = random(999983)`, a `row / resetRandom; / row` triple with random(500009) at the top (or instead, as the very first statements of the text, `loop(rz, 2)` / `resetRandom;` / such a row / `end loop`, where no `random` stands before the `resetRandom;` in the text: both passes show the same value), a body-less `loop(ez, (random(700001) & 1))` as first statement (its bound is evaluated once on entry: exactly one draw with that bound), a `while` counting a variable down from 2 whose condition draws (evaluated for 2, 1, 0: exactly three draws), and random(7919) in unselected branches of constant-condition ite. Oracle (self-consistent, on the crate's own event log): every random evaluation is exactly one generator draw (GenDraw, Draw pairs), 0 <= value < bound; after every Reset the values repeat those drawn from the start of the run over the longest common prefix of the bound sequences; the same seed gives the same log; no draw with bound 7919 (lazy ite); for each probed row the number of draws with its bound equals the number of its evaluations (items / g, the last one possibly cut by the cap), and each item shows exactly the value drawn for its evaluation (resp. its two low bits): one draw per evaluation, used as if it were a literal; VR is drawn once per checked row and shows the drawn value; and a straight-line control program that performs the same sequence of random(bound) / resetRandom with the same seed draws exactly the same values (the draws are those of the run's generator, in order). In a third of the cases two or three iterators over the same test are alive at once and stepped alternately by a generated schedule (same seed, same script): each yields exactly the items of the run on its own (every run has its own generator). Non-trivial: >= 2 draws and (a reset followed by a draw, or a checked probe, or a lazy sentinel present); distinct by source + signals + driver + seed."
+        "profile `random`: flow programs with random(e) in row entries, let, bounds, ite conditions and branches, nested in its own argument, in a virtual signal; bounds >= 2 by construction (2, small, (e&7)+2, 2^k up to 2^62); resetRandom at any statement position; seeds {0, 1, u64::MAX, random} forced through the seed hook; planted probes: `(random(B_r))` in a 64-bit input and `bits(2, random(B_r+1))` in two 1-bit inputs with a bound unique to the source row r (half of such rows keep their X/C entries: the g items of one evaluation then all show the one value drawn for it), `bits(0, random(Z_r))` in front of one row in six (no column, still one draw per evaluation), a planted `repeat(3)` over a row of literals and `(ite(1, random(900007), 0))` (three evaluations, three draws), `let dq = ((random(600011)) / 0);` as first statement where no reset construct is planted (one error item, one draw: the dividend is evaluated; the caller goes on), `declare VR = random(999983)`, a `row / resetRandom; / row` triple with random(500009) at the top (or instead, as the very first statements of the text, `loop(rz, 2)` / `resetRandom;` / such a row / `end loop`, where no `random` stands before the `resetRandom;` in the text: both passes show the same value), a body-less `loop(ez, (random(700001) & 1))` as first statement (its bound is evaluated once on entry: exactly one draw with that bound), a `while` counting a variable down from 2 whose condition draws (evaluated for 2, 1, 0: exactly three draws), and random(7919) in unselected branches of constant-condition ite. Oracle (self-consistent, on the crate's own event log): every random evaluation is exactly one generator draw (GenDraw, Draw pairs), 0 <= value < bound; after every Reset the values repeat those drawn from the start of the run over the longest common prefix of the bound sequences; the same seed gives the same log; no draw with bound 7919 (lazy ite); for each probed row the number of draws with its bound equals the number of its evaluations (items / g, the last one possibly cut by the cap), and each item shows exactly the value drawn for its evaluation (resp. its two low bits): one draw per evaluation, used as if it were a literal; VR is drawn once per checked row and shows the drawn value; and a straight-line control program that performs the same sequence of random(bound) / resetRandom with the same seed draws exactly the same values (the draws are those of the run's generator, in order). In a third of the cases two or three iterators over the same test are alive at once and stepped alternately by a generated schedule (same seed, same script): each yields exactly the items of the run on its own (every run has its own generator). Non-trivial: >= 2 draws and (a reset followed by a draw, or a checked probe, or a lazy sentinel present); distinct by source + signals + driver + seed."
     }
     fn cases(&self, tier: Tier) -> u64 {
         match tier {
@@ -206,7 +239,7 @@ impl Property for C17 {
         }
     }
     fn required_classes(&self) -> Vec<&'static str> {
-        vec!["draws>=2", "reset-then-draw", "bound=2", "bound>=2^32", "virtual-probe-checked", "seed=0", "seed=max", "replayed-prefix>=2", "value-probe-checked", "bits-probe-checked", "lazy-sentinel-planted", "probe-in-loop", "control-program-compared", "planted-reset-checked", "empty-loop-bound-draw-checked", "while-condition-draws-checked", "interleaved-iterators-compared", "probe-in-expanded-row", "planted-reset-in-loop-checked", "zero-width-bits-probe-checked"]
+        vec!["draws>=2", "reset-then-draw", "bound=2", "bound>=2^32", "virtual-probe-checked", "seed=0", "seed=max", "replayed-prefix>=2", "value-probe-checked", "bits-probe-checked", "lazy-sentinel-planted", "probe-in-loop", "control-program-compared", "planted-reset-checked", "empty-loop-bound-draw-checked", "while-condition-draws-checked", "interleaved-iterators-compared", "probe-in-expanded-row", "planted-reset-in-loop-checked", "zero-width-bits-probe-checked", "planted-repeat-checked", "planted-failing-division-checked"]
     }
     fn run(&self, s: &Streams) -> CaseOut {
         let mut out = CaseOut::new();
@@ -244,7 +277,7 @@ impl Property for C17 {
         let Some(tc) = load_wellformed(&mut out, "c17", &text, &built.sigs) else {
             return out;
         };
-        let opts = RunOpts { max_next: 300, seed: Some(seed), ..Default::default() };
+        let opts = RunOpts { max_next: 300, seed: Some(seed), continue_after_error: plan.failing_division, ..Default::default() };
         let real = run_real(&tc, &built.sigs, &spec, &opts);
         if let Some(RealItem::Panic(p)) = real.ctor.as_ref().or(real.items.last()) {
             out.fail(p.key(), format!("the run panicked: {p}"));
@@ -366,7 +399,44 @@ impl Property for C17 {
             _ => None,
         };
         let row_items: Vec<&RealRow> = real.items.iter().filter_map(|i| if let RealItem::Row(r) = i { Some(r) } else { None }).collect();
-        let clean = real.items.iter().all(|i| matches!(i, RealItem::Row(_)));
+        // (the planted failing division is the run's first item; nothing else may be an error)
+        let skip_first = plan.failing_division && matches!(real.items.first(), Some(RealItem::RuntimeErr(_)));
+        let clean = real.items.iter().skip(skip_first as usize).all(|i| matches!(i, RealItem::Row(_)));
+        if plan.failing_division {
+            let n = all.iter().filter(|(b, _)| *b == DIV_BOUND as i64).count();
+            out.class("planted-failing-division-checked");
+            if !skip_first {
+                out.fail("c17:division-by-zero-not-an-error", format!("the program starts with `let dq = ((random({DIV_BOUND})) / 0);`: the first item must be an error item, got {:?}", real.items.first().map(|i| i.short())));
+                return out;
+            }
+            if n != 1 {
+                out.fail(
+                    "c17:dividend-not-evaluated",
+                    format!("the program starts with `let dq = ((random({DIV_BOUND})) / 0);`: both operands of a division are evaluated (the statement fails afterwards), so one draw with that bound is due; the log has {n}"),
+                );
+                return out;
+            }
+        }
+        if let Some(rid) = plan.repeat_probe {
+            let items_n = row_items.iter().filter(|r| tag_of(r) == Some(rid)).count();
+            let draws_n = all.iter().filter(|(b, _)| *b == REPEAT_BOUND as i64).count();
+            if items_n > 0 && clean {
+                out.class("planted-repeat-checked");
+                if draws_n != items_n {
+                    out.fail(
+                        "c17:repeat-row-draws",
+                        format!("the planted `repeat(3)` over a row of literals and (ite(1, random({REPEAT_BOUND}), 0)) yielded {items_n} items but {draws_n} draws with that bound: every pass evaluates the row again"),
+                    );
+                    return out;
+                }
+                let shown: Vec<i64> = row_items.iter().filter(|r| tag_of(r) == Some(rid)).filter_map(|r| get(r, "RP0")).collect();
+                let drawn: Vec<i64> = all.iter().filter(|(b, _)| *b == REPEAT_BOUND as i64).map(|(_, v)| *v).collect();
+                if shown != drawn {
+                    out.fail("c17:repeat-row-draws", format!("the planted repeat row shows {shown:?}, the draws with its bound are {drawn:?}"));
+                    return out;
+                }
+            }
+        }
         if let Some((r1, r2)) = plan.reset_pair {
             let first = |rid: usize| row_items.iter().find(|r| tag_of(r) == Some(rid)).and_then(|r| get(r, "RP0"));
             if let (Some(a), Some(b)) = (first(r1), first(r2)) {
